@@ -83,6 +83,13 @@ HDR_INV1 = """
             separator@ == lf(),
         decreases vx_keys_remaining(&vx_it1).len(),
 """
+HDR_H3B = """
+        proof {
+            let i0 = K.len() - vx_keys_remaining(&vx_it1).len() - 1;
+            assert(*key == K[i0] && key@ == KV[i0]);
+            assert(K.to_set().contains(K[i0]));
+            assert(map@.contains_key(*key));
+        }"""
 HDR_H4 = """
         proof {
             let i0 = K.len() - vx_keys_remaining(&vx_it1).len() - 1;
@@ -278,7 +285,7 @@ BR_H3 = """
         }"""
 
 
-def fmt_e9_pos(u, sf, it, k, types, argspecs, name, wrap=None):
+def fmt_e9_pos(u, sf, it, k, types, argspecs, name, wrap=None, arg_subst=()):
     """like fmt_e9, for format! calls whose arguments are arbitrary expressions: the arguments stay at the call site (passed
     by reference, in order), the stub is `format!(LIT, vx_a0, vx_a1, ..)` with LIT copied from the tree and the contract
     generated from LIT ($ in an argspec = the stub parameter)"""
@@ -303,6 +310,11 @@ def fmt_e9_pos(u, sf, it, k, types, argspecs, name, wrap=None):
     params = ", ".join("vx_a%d: %s" % (i, t) for i, t in enumerate(types))
     if wrap is None:
         wrap = [t.startswith("&") and t != "&str" for t in types]
+    for (old, new) in arg_subst:
+        # an E9 redirection that lies inside this format! call (vxlib drops nested edits: the outer one wins), applied to the argument text
+        if sum(x.count(old) for x in fargs) != 1:
+            raise Undecided("%s: format! #%d: nested redirection anchor %r not found exactly once" % (it["name"], k, old))
+        fargs = [x.replace(old, new) for x in fargs]
     args = ", ".join(("&(%s)" % x) if wrap[i] else x for i, x in enumerate(fargs))
     body = "format!(%s, %s)" % (lit, ", ".join("vx_a%d" % i for i in range(len(fargs))))
     return ((a, b), None, params, args, "String", "    ensures r@ == " + " + ".join(parts) + ",", dict(name=name, local=True, body=body))
@@ -446,11 +458,13 @@ def build(u):
     ensures *r == map@[*key],""", dict(name="vx_e9_map_index", generics="<'a>", local=True, body="&map[key]")),
                     # the line's text: format! moved into a stub whose contract is generated from the literal in the tree; the
                     # argument expressions (incl. `.trim()`) stay in the verified body
-                    fmt_e9_pos(u, hc, hit, 0, ["&String", "&str", "&String"], ["$@", "$@", "$@"], "vx_e9_fmt_header_line", wrap=[False, False, True])],
+                    fmt_e9_pos(u, hc, hit, 0, ["&String", "&str", "&String"], ["$@", "$@", "$@"], "vx_e9_fmt_header_line", wrap=[False, False, True],
+                               arg_subst=[("map[key]", "vx_e9_map_index(&map, key)")])],
                 hints=[
                     ("value.to_str()", None, "before", HDR_H1),
                     ("map.insert(", None, "after", HDR_H2),
                     (hc.s(L1["span"][0], L1["body"][0]), None, "before", HDR_H3),
+                    ("let h = format!(", None, "before", HDR_H3B),
                     ("canonicalized_headers.push_str(&h);", None, "after", HDR_H4),
                     ("continue;", None, "before", HDR_H4C),
                     ("canonicalized_headers", -1, "before", HDR_H5),
